@@ -429,6 +429,9 @@ def _find_arrow(m, f):
 COMMON_REWRITES = [
     dict(name='R-io-error-new', kind='re', count=None,
          pat=r'(?:std::)?io::Error::new\(\s*([^,()]+?),\s*"(?:[^"\\]|\\.)*"\s*,?\s*\)', rep=r'crate::vstubs::io_error_new(\1)'),
+    # direct calls only (`u64::from_be_bytes(x)`); the `.map(u64::from_be_bytes)` forms of the pinned tree have their own rules
+    dict(name='R-bytes-arr', kind='re', count=None,
+         pat=r'\bu(32|64)::from_(be|le)_bytes\(', rep=r'crate::vstubs::u\1_from_\2_arr('),
 ]
 
 
